@@ -36,8 +36,8 @@ RULE = (
     "pairs containing the lattice origin; n=3: the 378 multisets {origin,b,c} "
     "in cyclic file orders) x every radius tuple from {0,1,2.5} x 6 lattice "
     "scales {0.1,1,30,100,400,2000} x 4 offset vectors {0,+500,-500,"
-    "(+500,-500,0)} x 3 layouts {fixed columns, pdb2pqr --whitespace, "
-    "single-blank whitespace} x a set of (cfac, fadd, space) settings; "
+    "(+500,-500,0)} x 4 layouts {fixed columns, pdb2pqr --whitespace, "
+    "single-blank whitespace, fixed columns with five-digit serials} x a set of (cfac, fadd, space) settings; "
     "records: every ATOM/HETATM pattern for n<=2; headers: every program of "
     "<=2 inserted non-atom lines (16 kinds, every gap, both orders; END only "
     "after the last atom) on 3 base files x scale x offset x layout, read "
@@ -85,9 +85,9 @@ BOUND = {
     "pairs) x 7 settings; n=3 (378 multisets, one of the 27 (file order, "
     "first radius, second radius) blocks chosen by the seed) x defaults; ATOM/HETATM "
     "patterns for n<=2; all <=2-line header programs on 3 bases x scales "
-    "{1,100} x 4 offsets x 3 layouts (+ file / CRLF door at scale 1); bulk "
+    "{1,100} x 4 offsets x 4 layouts (+ file / CRLF door at scale 1); bulk "
     "lattices up to 8000 atoms; all 49 bundled PQR files; dump_apbs on 10 "
-    "geometries x 3 header sets x 72 placements; 48 end-to-end runs",
+    "geometries x 3 header sets x 96 placements; 48 end-to-end runs",
     "thorough": "n=1 x all 27 parameter triples; n=2 all 729 ordered pairs "
     "x 7 settings and the 53 origin pairs x the other 20 triples; n=3 in "
     "all 3 file orders x all radii x defaults, first order also x "
